@@ -635,6 +635,7 @@ func runC17(c *Ctx) {
 		"it is NOT applied where the documented rule is silent (explicit numbers under pattern order, non-ECMAScript syntax under ECMAScript). Oracle (2), always: names/numbers lists have equal length without duplicates; GroupNameFromNumber/GroupNumberFromName are inverse on listed " +
 		"entries, a listed name is a name written in the pattern or the decimal string of its own number, and lookups return \"\"/-1 (GroupByNumber/GroupByName nil) on unlisted numbers -1..12 and probe names; Groups()[i].Name, GroupByNumber(numbers[i]), GroupByName(names[i]) are Groups()[i]; every capturing group sits in exactly one slot, no listed number is empty; " +
 		"pattern+\\N, \\k<N>, \\k'N', \\k<name>, \\k'name', (?P=name) compile, keep the map and match witness+T entirely where T is that group's text (texts of different groups start with different letters, so this pins the referenced group; all references are first tried in one pattern, a failure is attributed by retrying each alone); Replace with [$N], [${N}], [${name}] yields that text. " +
+		"Family BALANCE: every flat sequence of 2..5 (6 thorough) groups over {(x) (?<n>x) (?<m>x) (?<b-n>x) (?<-n>x) (?<m-n>x) (?'c-m'x)} whose pops always find a capture, x {O, none, O+n, n, RE2+O}: numbers, names, the capture list and value of every number (model: a balancing group counts as a named group of its left name; it pops the right name's last capture and captures the text between that capture and itself), GroupByNumber/GroupByName/Groups() and one Replace naming every group both ways. " +
 		"Non-trivial = cases whose numbering differs from 'k-th capturing parenthesis gets k' or where only consistency applies."
 	c.Assume("ECMAScript mode: a compile error is accepted for groups that are not ECMAScript syntax ((?'m'x), numeric names) and for duplicate names; if such a pattern compiles only the consistency legs run")
 	c.Assume("MaintainCaptureOrder with explicitly numbered groups: README is silent on which number the group gets, so only compilation and the consistency legs are demanded")
@@ -667,6 +668,11 @@ func runC17(c *Ctx) {
 			}
 		}()
 	}
+	balK := 5
+	if thorough {
+		balK = 6
+	}
+	c17RunBalance(c, balK)
 	for _, o := range optSets {
 		var menu []int
 		for i, g := range c17Menu {
@@ -741,6 +747,27 @@ func runC17(c *Ctx) {
 }
 
 func replayC17(v Violation) (bool, string) {
+	if xs, ok := v.Extra["balseq"].([]any); ok {
+		var seq []int
+		for _, x := range xs {
+			seq = append(seq, int(x.(float64)))
+		}
+		var vs []*Violation
+		var pan any
+		func() {
+			defer func() { pan = recover() }()
+			vs, _, _ = c17balCheck(seq, optSet(v.Options))
+		}()
+		if pan != nil {
+			return v.Leg == "panic", panicText(pan)
+		}
+		for _, x := range vs {
+			if x.Leg == v.Leg {
+				return true, x.Leg + ": " + x.Detail
+			}
+		}
+		return false, "the leg holds now"
+	}
 	var seq []int
 	if xs, ok := v.Extra["seq"].([]any); ok {
 		for _, x := range xs {
